@@ -54,7 +54,7 @@ let handle toks =
     let guard = ref 0 in   (* 0 off, 1 watching for the first failing call, 2 tripped: ops are skipped until REC *)
     let is_failure name r =
       if List.mem name ["sb"; "st"; "sv"; "so"; "sS"; "su"; "tv"; "tov"; "tS"; "rs"; "jp"; "jr"] then r <> 0
-      else if List.mem name ["ss"; "ta"; "to"; "xv"; "xo"; "aS"; "xu"; "uf"; "es"; "et"; "ev"; "eo"; "eS"; "eu"; "eb"; "cb"; "cs"; "cS"; "cv"; "emb"; "cln"] then r = 0
+      else if List.mem name ["ss"; "ta"; "to"; "xv"; "xo"; "aS"; "xu"; "uf"; "es"; "et"; "ev"; "eo"; "eS"; "eu"; "cu"; "eb"; "cb"; "cs"; "cS"; "cv"; "emb"; "cln"] then r = 0
       else false in
     let cur = ref "" in
     (* XA:<i> = an allocation fails during op number i, whatever the allocator's sizing policy: just before op i every capacity
